@@ -228,6 +228,9 @@ func c16AlignmentAction(msg string) bool {
 	return true
 }
 
+// c16WholeFileAction: actions that are logged for one line but rewrite the file as a whole
+func c16WholeFileAction(msg string) bool { return msg == "Sorting the whole file." }
+
 func c16FileLines(content string) []string {
 	return strings.Split(strings.TrimSuffix(content, "\n"), "\n")
 }
@@ -247,6 +250,24 @@ func c16RepeatedFixes(cfg c04Cfg, prevIn, curIn c04Files, prev, cur c16Pass, p i
 		file := filepath.Clean(d.Path)
 		pd, ok := prevHas[file+"\x00"+d.Msg]
 		if !ok || c16AlignmentAction(d.Msg) || c04NoopAction(d.Msg) {
+			continue
+		}
+		if c16WholeFileAction(d.Msg) {
+			// the action concerns the file, not the line it is logged for: repeating it is a
+			// violation iff the pass before had the same lines to work on (sorting is
+			// idempotent on a multiset of lines; after a fix that changed a line, the
+			// order may legitimately change again)
+			a, b := c16FileLines(prevIn[file]), c16FileLines(curIn[file])
+			sort.Strings(a)
+			sort.Strings(b)
+			if strings.Join(a, "\n") != strings.Join(b, "\n") {
+				continue
+			}
+			key := "C16/same-fix-in-consecutive-passes/" + c16FileKind(file) + "/" + c04FixKind(d.Msg)
+			if !seen[key] {
+				seen[key] = true
+				out = append(out, c04Finding{key, fmt.Sprintf("[%s] pass %d of pkglint -F logs %q although pass %d logged %q for a file with exactly the same lines", cfg, p, d.Raw, p-1, pd.Raw)})
+			}
 			continue
 		}
 		ls := c16FileLines(curIn[file])
